@@ -18,6 +18,9 @@ ASSUMPTIONS = {
                     "mutex re-entrant for its owning thread only)",
     "A-running": "a result item or a feeder error concerns a future that dispatch marked RUNNING and that nobody resolved since (each call item is answered at most "
                  "once: worker contract; a RUNNING future cannot be cancelled by its owner)",
+    "A-singleton": "the module-level singleton state is only touched under _executor_lock and satisfies its representation invariant at entry (re-established by every "
+                   "return of the factory: induction over calls)",
+    "A-yield": "while a polling loop sleeps, other threads change only the shared state named at the yield point",
     "A-monitor": "an Event's flag semaphore holds 0 or 1 whenever its condition's lock is acquired",
     "A-spawn": "queues do not send objects while a process object is being pickled for launch",
     "A-fds": "descriptors recorded in a Popen's keep list are open descriptors of this process",
@@ -166,6 +169,37 @@ def lemma_semaphore_holders(repo, tier, seed):
         out.append({"name": f"loky.backend.synchronize:<model>:{nm}", "status": str(r), "backend": "z3", "secs": time.time() - t0, "kind": "lemma",
                     "function": "", "path": [], "model": "" if r == z3.unsat else str(s.model() if r == z3.sat else "")})
     return out
+
+
+def scan_singleton_writers(repo, tier, seed):
+    """C09: only the factory assigns the module-level singleton, only _get_next_executor_id advances the id counter, and both start empty."""
+    tree = _scan(repo, "loky/reusable_executor.py")
+    writers = {"_executor": set(), "_executor_kwargs": set(), "_next_executor_id": set()}
+
+    def walk(node, scope, fn):
+        for ch in _ast.iter_child_nodes(node):
+            sc = scope + [ch.name] if isinstance(ch, (_ast.FunctionDef, _ast.ClassDef)) else scope
+            f2 = ch if isinstance(ch, _ast.FunctionDef) else fn
+            tg = []
+            if isinstance(ch, _ast.Assign):
+                tg = ch.targets
+            elif isinstance(ch, (_ast.AugAssign, _ast.AnnAssign)):
+                tg = [ch.target]
+            for t in tg:
+                for n in _ast.walk(t):
+                    if isinstance(n, _ast.Name) and n.id in writers and fn is not None:
+                        if any(isinstance(g, _ast.Global) and n.id in g.names for g in _ast.walk(fn)):
+                            writers[n.id].add(".".join(scope))
+            walk(ch, sc, f2)
+    walk(tree, [], None)
+    init = {t.id: _ast.unparse(n.value) for n in tree.body if isinstance(n, _ast.Assign) for t in n.targets if isinstance(t, _ast.Name)}
+    ok_w = (writers["_executor"] == {"_ReusablePoolExecutor.get_reusable_executor"} and writers["_executor_kwargs"] == {"_ReusablePoolExecutor.get_reusable_executor"}
+            and writers["_next_executor_id"] == {"_get_next_executor_id"})
+    ok_i = init.get("_executor") == "None" and init.get("_executor_kwargs") == "None" and init.get("_next_executor_id") == "0" \
+        and init.get("_executor_lock") == "threading.RLock()"
+    return [_ob("loky.reusable_executor:<module>:structural/only-the-factory-writes-the-singleton", ok_w, f"writers: { {k: sorted(v) for k, v in writers.items()} }"),
+            _ob("loky.reusable_executor:<module>:structural/singleton-starts-empty-under-a-reentrant-lock", ok_i,
+                f"initial values: { {k: init.get(k) for k in ('_executor', '_executor_kwargs', '_next_executor_id', '_executor_lock')} }")]
 
 
 EXEC_ABS = COMMON_ABS + ["one manager-thread method is treated as atomic w.r.t. the executor's tables (A-atomic)"]
@@ -514,4 +548,32 @@ PROPS["C14"] = dict(
     assumptions=["A-kernel-sem", "A-monitor", "A-posix"],
     abstractions=SYNC_ABS,
     extra=[lemma_semaphore_holders],
+)
+
+PROPS["C09"] = dict(
+    proved="the factory, for every symbolic history state of the singleton (none / healthy / broken / shut down) and every argument combination: the previous "
+           "instance is returned iff it exists, is neither broken nor shut down, and reuse allows it (reuse is True, or 'auto' and the seven recorded keyword "
+           "arguments compare equal the way dict.__eq__ compares them); is_reused says so; a reused instance is resized to the request; otherwise the previous "
+           "instance is shut down with wait=True and the caller's kill_workers *before* the singleton is dropped and the factory re-entered (recursion proved to "
+           "stop after one level), the fresh instance is built from the new arguments, starts healthy, has exactly the requested size, an id taken from the "
+           "monotonic counter (strictly above the previous instance's), the shared submit/resize lock, and is recorded as the singleton with its arguments; the "
+           "representation invariant of the singleton is re-established on return (induction over calls; writers of the globals: structural scan); everything runs "
+           "under the re-entrant module lock; non-positive sizes and fork contexts never yield an executor.",
+    not_covered="interleavings between threads beyond 'the whole factory runs under _executor_lock' (A-atomic: RLock gives mutual exclusion); that tasks of racing "
+                "callers complete (liveness, C01); flags read at the start of the call may be set concurrently by the manager thread right after (A-atomic).",
+    assumptions=["A-singleton", "A-atomic", "A-pids", "A-alias", "A-posix"],
+    abstractions=EXEC_ABS,
+    extra=[scan_singleton_writers],
+)
+PROPS["C10"] = dict(
+    proved="_resize: rejects None before anything happens; same size or never-started executor: only the size is recorded; otherwise waits for every pending job "
+           "(returns from the wait only with an empty pending table), then under the management lock records the new size and posts exactly one None sentinel per "
+           "worker found alive above the new size (never more), then polls, then tops up through _adjust_process_count (which keeps every registered worker and "
+           "starts the missing ones, C08) and awaits at least the requested number of workers; submit and _resize run under the same submit/resize lock (the base "
+           "submit is only reached holding it); the lock is released on every exit.",
+    not_covered="termination of the three polling loops and everything that depends on what other threads do while they sleep (interference is modelled as arbitrary "
+                "change of the shared tables at each sleep, A-yield); that the kept workers are the previous processes as observed by pid; results of tasks submitted "
+                "before the resize (C03 routing is per task and unaffected by the size).",
+    assumptions=["A-yield", "A-atomic", "A-pids", "A-posix"],
+    abstractions=EXEC_ABS + ["interference at declared yield points (time.sleep in polling loops): the shared state named there is havocked"],
 )
